@@ -92,4 +92,50 @@ func runExhaustive(res *lib.Result, drv *lib.Driver, mon *lib.Monitor) {
 		}
 	}
 	flush()
+	runExhaustiveReset(res, drv, mon)
+}
+
+// resetTree: the paths reset masks are enumerated over (two levels of nesting, every field kind).
+var resetTree = []string{
+	"default_int32", "default_foreign_message", "default_foreign_message.c", "default_foreign_message.d",
+	"default_nested_message", "default_nested_message.a", "default_nested_message.corecursive",
+	"default_nested_message.corecursive.default_int32", "oneof_default_nested_message", "repeated_int32", "map_string_string",
+}
+
+// runExhaustiveReset: every reset mask of at most two paths (ordered: parent+child in both orders,
+// duplicates) x a family of (writable, update) masks x 3 stored x 3 written messages, at
+// FieldUpdater and through Value.Set.
+func runExhaustiveReset(res *lib.Result, drv *lib.Driver, mon *lib.Monitor) {
+	tie := res.Tie("writes-exhaustive-reset", "K2",
+		"all reset masks of <=2 paths (ordered, duplicates and parent+child pairs included, plus empty) over an 11-path tree of TestAllTypes x (writable, update) in {(nil,nil), (nil,{default_int32}), (nil,{default_foreign_message.c}), (nil,empty), (empty,nil), ({default_int32},nil), ({default_foreign_message.c},{default_foreign_message.c})} x 3 stored x 3 written messages at FieldUpdater.Validate+Merge and Value.Set; exhaustive over this finite domain")
+	tie.Exhaustive = true
+	msgs := exhaustiveMessages()
+	one := func(p string) mt.Mask { return mt.Mask{Paths: []string{p}} }
+	empty := mt.Mask{Paths: []string{}}
+	WMs := [][2]mt.Mask{
+		{mt.NilMask(), mt.NilMask()}, {mt.NilMask(), one("default_int32")}, {mt.NilMask(), one("default_foreign_message.c")},
+		{mt.NilMask(), empty}, {empty, mt.NilMask()}, {one("default_int32"), mt.NilMask()},
+		{one("default_foreign_message.c"), one("default_foreign_message.c")},
+	}
+	var cases []wcase
+	flush := func() {
+		runCases(cases, tie, mon, drv)
+		cases = cases[:0]
+	}
+	for _, R := range masksUpTo2(resetTree)[1:] {
+		for _, wm := range WMs {
+			for _, dst := range msgs {
+				for _, src := range msgs {
+					for _, site := range []string{"updater", "value"} {
+						cases = append(cases, wcase{Root: "TestAllTypes", Site: site, W: wm[0], More: mt.NilMask(), M: wm[1], R: R,
+							Dst: mt.EncodeMsg(dst), Src: mt.EncodeMsg(src), DstText: mt.CanonMsg(dst), SrcText: mt.CanonMsg(src)})
+					}
+					if len(cases) >= 3000 {
+						flush()
+					}
+				}
+			}
+		}
+	}
+	flush()
 }
